@@ -52,7 +52,11 @@ fn cc_build(path: &[(autosar_data::ElementName, autosar_data_specification::Elem
         if rng.below(3) == 0 { e.set_comment(Some(format!("comment {}", rng.below(100)))); }
         if e.element_name() == ElementName::Autosar { continue; }
         for (an, aspec, _) in et.attribute_spec_iter().take(3) {
-            if let CharacterDataSpec::String { .. } = aspec { let _ = e.set_attribute(an, CharacterData::String("a".to_string())); }
+            match aspec {
+                CharacterDataSpec::String { .. } => { let _ = e.set_attribute(an, CharacterData::String("a".to_string())); }
+                CharacterDataSpec::Enum { items } => { let valid: Vec<_> = items.iter().filter(|(_, m)| m & vm != 0).collect(); let narrow: Vec<_> = valid.iter().filter(|(_, m)| *m != valid.iter().fold(0u32, |a, (_, m)| a | m)).cloned().collect(); let pool = if !narrow.is_empty() && rng.below(4) != 0 { &narrow } else { &valid }; if !pool.is_empty() { let _ = e.set_attribute(an, CharacterData::Enum(pool[rng.below(pool.len())].0)); } }
+                _ => {}
+            }
         }
     }
     Some((model, file, cur))
@@ -129,6 +133,53 @@ fn cc_one(path: &[(autosar_data::ElementName, autosar_data_specification::Elemen
                         cc_registered(&m2, &copy, &format!("the copy of {} in another model", cur.element_name()))?;
                     }
                     Err(e) => return Err(format!("a copy of {} into an empty parent of the same type and version in another model fails: {}", cur.element_name(), e)),
+                }
+            }
+        }
+    }
+    // (5) copy into a fresh model of ANOTHER version: if the source file reports no incompatibility with that version, nothing may be
+    //     omitted (same text); in any case the destination file must load cleanly (histories with version-dependent element types are
+    //     attributed to the finding recorded under C07)
+    if rng.below(2) == 0 {
+        let all = autosar_data_specification::expand_version_mask(u32::MAX);
+        // half of the time aim at a version the source is NOT compatible with (something has to be omitted), otherwise at a compatible one
+        let (_, okmask) = file.check_version_compatibility(v);
+        let bad: Vec<AutosarVersion> = all.iter().cloned().filter(|x| (*x as u32) & okmask == 0).collect();
+        let good: Vec<AutosarVersion> = all.iter().cloned().filter(|x| (*x as u32) & okmask != 0 && *x != v).collect();
+        let v2 = if !bad.is_empty() && (good.is_empty() || rng.below(2) == 0) { bad[rng.below(bad.len())] } else if !good.is_empty() { good[rng.below(good.len())] } else { v };
+        if v2 != v {
+            let m3 = AutosarModel::new();
+            if let Ok(f3) = m3.create_file("h.arxml", v2) {
+                let mut p3 = m3.root_element();
+                let mut ok = true;
+                for (k, (name, _)) in path.iter().enumerate().skip(1).take(path.len() - 2) {
+                    let named = p3.element_type().find_sub_element(*name, v2 as u32).map(|(t, _)| t.is_named_in_version(v2));
+                    let r = match named { Some(true) => p3.create_named_sub_element(*name, &format!("n{}", k)), Some(false) => p3.create_sub_element(*name), None => { ok = false; break; } };
+                    match r { Ok(e) => p3 = e, Err(_) => { ok = false; break; } }
+                }
+                if ok {
+                    let (errs, _) = file.check_version_compatibility(v2);
+                    if let Ok(copy) = p3.create_copied_sub_element(&cur) {
+                        stats[1] += 1;
+                        fn cc_retyped(e: &Element, expect: autosar_data_specification::ElementType, v2: AutosarVersion) -> bool {
+                            if e.element_type() != expect { return true; }
+                            for c in e.sub_elements() { match expect.find_sub_element(c.element_name(), v2 as u32) { Some((t, _)) => if cc_retyped(&c, t, v2) { return true; }, None => {} } }
+                            false
+                        }
+                        let retyped = match p3.element_type().find_sub_element(copy.element_name(), v2 as u32) { Some((t, _)) => cc_retyped(&copy, t, v2), None => true };
+                        let tag = if retyped { "cross-version copy with version-dependent element type: " } else { "" };
+                        if errs.is_empty() && copy.serialize() != src_text {
+                            return Err(format!("{}the source file is compatible with {} but a copy of {} into a {} file differs from the source :: source {} :: copy {}", tag, v2.filename(), cur.element_name(), v2.filename(), hex(src_text.as_bytes()), hex(copy.serialize().as_bytes())));
+                        }
+                        let t3 = f3.serialize().map_err(|e| e.to_string())?;
+                        match AutosarModel::new().load_buffer(t3.as_bytes(), "g3.arxml", false) {
+                            Err(e) => return Err(format!("{}after copying {} from a {} file into a {} file the destination is rejected by lenient loading [{}] :: document {}", tag, cur.element_name(), v.filename(), v2.filename(), e, hex(t3.as_bytes()))),
+                            Ok((_, w)) => if let Some(s) = w.iter().map(|x| x.to_string()).find(|s| !s.contains("is required in element")) {
+                                return Err(format!("{}after copying {} from a {} file into a {} file the destination no longer validates [{}] :: document {}", tag, cur.element_name(), v.filename(), v2.filename(), s, hex(t3.as_bytes())));
+                            }
+                        }
+                        if file.serialize().map_err(|e| e.to_string())? != file_text { return Err(format!("copying {} into a file of another version changed the source model", cur.element_name())); }
+                    }
                 }
             }
         }
